@@ -39,6 +39,7 @@ def inline_same_class(fn, callee, t):
 
 
 def classes_with_moves(db):
+    _DB_FOR_TMP_SWAP[0] = db
     out = {}
     for f in db.fns.values():
         if f.pattern or f.rec.get('defaulted'):
@@ -183,8 +184,12 @@ def field_mentions(db, fn, depth=0, seen=None):
     return out
 
 
+_DB_FOR_TMP_SWAP = [None]
+
+
 def is_tmp_swap(fn):
-    """move assignment written as: T tmp(move(other)); swap(*this, tmp);"""
+    """move assignment written as: T tmp(move(other)); swap(*this, tmp);  - or with the swap spelled out member by member:
+    every data member and every non-empty base of *this exchanged (swap / adl_swap) with the same part of tmp"""
     tmp = None
     for e in fn.events():
         if e['ev'] == 'decl':
@@ -194,12 +199,51 @@ def is_tmp_swap(fn):
                     tmp = v['did']
     if tmp is None:
         return False
+    parts_this, parts_tmp = set(), set()
     for e, t in flow.call_events(fn):
-        if t.get('short') == 'swap' and len(t.get('args', [])) == 2:
+        if t.get('short') in ('swap', 'adl_swap') and len(t.get('args', [])) == 2:
             a, b = t['args']
             if any(s.get('k') == 'this' for s in subterms(a)) and any(s.get('did') == tmp for s in subterms(b)):
-                return True
-    return False
+                ka, kb = _part_of(a, None), _part_of(b, tmp)
+                if ka == '*' and kb == '*':
+                    return True
+                if ka is not None and ka == kb:
+                    parts_this.add(ka)
+    db = _DB_FOR_TMP_SWAP[0]
+    crec = db.classes.get(fn.cls) if db is not None else None
+    if not parts_this or crec is None:
+        return False
+    need = {'f:' + f['name'] for f in crec['fields'] if not f.get('static')}
+    for bt in [b['t'] for b in crec['bases']]:
+        bc = db.classes.get(bt)
+        if bc is not None and not bc['fields'] and not bc['bases']:
+            continue
+        if bc is None and (bt.startswith('std::') or 'integral_constant' in bt):
+            continue
+        need.add('b:' + strip_ns(bt))
+    return need <= parts_this
+
+
+def _part_of(t, tmp_did):
+    """which part of the object (this, or the local tmp_did) a swap argument names: '*' the whole object, 'f:<member>', 'b:<base type>'"""
+    cast_to = None
+    x = t
+    while isinstance(x, dict) and x.get('k') in ('cast', 'paren') and isinstance(x.get('e'), dict):
+        if x.get('k') == 'cast' and x.get('to') and cast_to is None:
+            cast_to = str(x['to'])
+        x = x['e']
+    if not isinstance(x, dict):
+        return None
+    root_ok = lambda r: isinstance(r, dict) and ((tmp_did is None and (r.get('k') == 'this' or (r.get('k') == 'un' and r.get('op') == '*' and sym.strip_casts(r.get('e') or {}).get('k') == 'this')))
+                                               or (tmp_did is not None and r.get('k') == 'local' and r.get('did') == tmp_did))
+    if x.get('k') == 'member' and root_ok(sym.strip_casts(x.get('base') or {})):
+        return 'f:' + x['name']
+    if root_ok(x):
+        if cast_to:
+            c = cast_to.replace('&', '').replace('const ', '').strip()
+            return 'b:' + strip_ns(c)
+        return '*'
+    return None
 
 
 def base_moved(fn, base_t, params):
